@@ -84,9 +84,9 @@ PROPS = {
     ),
     'C15': dict(
         title='error discipline', proj='proj_err', oracle='c15',
-        quick=[S_('probes', nc=1, items=('depths_key', 'bare_upgraded', 'plain_sequence')), S_('programs', count=2000, oracle='c05', proj='proj_full'), S_('probes_c15', nc=1, oracle='c05', proj='proj_full'), S_('homonym_rand', count=20000), S_('merge_pairs'), S_('merge_rand', count=20000), S_('embed_small'), S_('embed_rand', count=20000),
+        quick=[S_('probes', nc=1, items=('depths_key', 'bare_upgraded', 'plain_sequence', 'na_defaults')), S_('programs', count=2000, oracle='c05', proj='proj_full'), S_('probes_c15', nc=1, oracle='c05', proj='proj_full'), S_('homonym_rand', count=20000), S_('merge_pairs'), S_('merge_rand', count=20000), S_('embed_small'), S_('embed_rand', count=20000),
                S_('forwards_rand', count=30000), S_('maskflags_exh'), S_('maskflags', count=40000), S_('meta_rand', count=20000)],
-        thorough=[S_('probes', nc=1, items=('depths_key', 'bare_upgraded', 'plain_sequence')), S_('programs', count=30000, oracle='c05', proj='proj_full'), S_('probes_c15', nc=1, oracle='c05', proj='proj_full'), S_('homonym_rand', count=300000), S_('merge_pairs'), S_('merge_pairs_stars'), S_('merge_rand', count=300000), S_('embed_small'),
+        thorough=[S_('probes', nc=1, items=('depths_key', 'bare_upgraded', 'plain_sequence', 'na_defaults')), S_('programs', count=30000, oracle='c05', proj='proj_full'), S_('probes_c15', nc=1, oracle='c05', proj='proj_full'), S_('homonym_rand', count=300000), S_('merge_pairs'), S_('merge_pairs_stars'), S_('merge_rand', count=300000), S_('embed_small'),
                   S_('embed_pairs', nc=64), S_('embed_rand', count=300000), S_('forwards_rand', count=300000),
                   S_('maskflags_exh'), S_('maskflags', count=300000), S_('mask0'), S_('meta_rand', count=200000)],
         runtime_part=CTOR,
@@ -198,8 +198,8 @@ PROPS = {
     ),
     'C07': dict(
         title='retrieval is total and only narrows', proj='proj_full', oracle='c07',
-        quick=[S_('probes', nc=1, items=('odd_defaults_c07',)), S_('visitor_corpus', limit=4000), S_('visitor_adv', nc=4), S_('chain', nc=4), S_('probes', nc=3, items=('adversarial2', 'other_thread', 'adversarial3')), S_('retrieve'), S_('programs', count=16000, routes=('self', 'param'), ops=('pauto',))],
-        thorough=[S_('probes', nc=1, items=('odd_defaults_c07',)), S_('visitor_corpus'), S_('visitor_adv', nc=4), S_('chain', nc=4), S_('probes', nc=3, items=('adversarial2', 'other_thread', 'adversarial3')), S_('retrieve'), S_('programs', count=160000, routes=('self', 'param'), ops=('pauto',))],
+        quick=[S_('probes', nc=1, items=('odd_defaults_c07', 'cycle_reload', 'self_forwarding_hint', 'na_defaults')), S_('visitor_corpus', limit=4000), S_('visitor_adv', nc=4), S_('chain', nc=4), S_('probes', nc=3, items=('adversarial2', 'other_thread', 'adversarial3')), S_('retrieve'), S_('programs', count=16000, routes=('self', 'param'), ops=('pauto',))],
+        thorough=[S_('probes', nc=1, items=('odd_defaults_c07', 'cycle_reload', 'self_forwarding_hint', 'na_defaults')), S_('visitor_corpus'), S_('visitor_adv', nc=4), S_('chain', nc=4), S_('probes', nc=3, items=('adversarial2', 'other_thread', 'adversarial3')), S_('retrieve'), S_('programs', count=160000, routes=('self', 'param'), ops=('pauto',))],
         runtime_part='what inspect, getsource, ast.parse, getattr and Sphinx raise on real objects (validated over the corpus, not proved)',
         level_text='Totality of the AST walker on arbitrary trees (theorem visitor_total: the deferred-call queue always drains) and of the fallback chain of the model; the real retrieval is run over every '
                    'star-taking function and a seeded sample (thorough: all) of the ~2*10^4 callables of the importable standard library and installed packages plus adversarial sources, comparing the '
